@@ -10,6 +10,11 @@
                                                 handleWatchEvent       -> [handle]
                                                 shouldFireEvent        -> [should_fire]
                                                 cachedObjects          -> [cache]
+                                                handleWatchEvent's head: tombstone unwrap + type assertion
+                                                                       -> [delivery], [unwrap], [handle_d]
+     k8s.io/client-go/tools/cache (v0.30.11, the environment: what calls the handlers)
+       delta_fifo.go  DeltaFIFO.Replace, controller.go processDeltas,
+       shared_informer.go sharedIndexInformer.OnUpdate/distribute      -> [relist]
 
    Oracles (Section variables, not axioms):
      [jq o] — what gojq produces when the monitor's jqFilter runs on object [o]: the
@@ -100,6 +105,38 @@ Fixpoint c_del (id : N) (c : cache) : cache :=
 (* a fired KubeEvent{Type: Event, WatchEvents: [t], Objects: [entry]} *)
 Record event := mkEvent { ev_type : evtype; ev_id : N; ev_entry : entry }.
 
+(* The argument `object interface{}` of OnAdd/OnUpdate/OnDelete -> handleWatchEvent: its
+   dynamic type, as far as the dynamic shared informer of client-go produces it.
+     Plain o          *unstructured.Unstructured — every ADDED/MODIFIED/DELETED watch event,
+                      the initial list, a resync and the live objects of a relist;
+     Tombstone key o  cache.DeletedFinalStateUnknown{Key: key, Obj: o} passed BY VALUE — the
+                      only form in which OnDelete hears of an object that disappeared while
+                      the watch was broken (DeltaFIFO.Replace finds it missing from the new
+                      list; Obj is the last state the informer's store held, Key its store key).
+   Any other dynamic type (a pointer to a tombstone, a typed object, nil) never reaches the
+   handler of a dynamic informer and makes the type assertion panic: outside the model. *)
+Inductive delivery :=
+| Plain (o : json)
+| Tombstone (key : N) (o : json).
+
+(* handleWatchEvent, before anything else:
+     if staleObj, stale := object.(cache.DeletedFinalStateUnknown); stale { object = staleObj.Obj }
+     obj := object.(*unstructured.Unstructured)
+   for every event type alike; Key is not used (resourceId(obj) is computed from Obj) *)
+Definition unwrap (d : delivery) : json :=
+  match d with
+  | Plain o => o
+  | Tombstone _ o => o
+  end.
+
+(* a delivered watch event: handler called (OnAdd/OnUpdate/OnDelete), resource id of the
+   object, the argument *)
+Definition dstep := (evtype * N * delivery)%type.
+
+(* the CHANGE a delivery reports: the form of the argument is no part of it *)
+Definition change_of (s : dstep) : evtype * N * json :=
+  match s with (t, id, d) => (t, id, unwrap d) end.
+
 Section WithOracle.
 
   Variable jq : json -> list json * bool.       (* outputs, ended-with-error *)
@@ -147,4 +184,55 @@ Section WithOracle.
   Definition final_cache (cfg : config) (c : cache) (h : list step) : cache :=
     fold_left (fun c s => match s with (t, id, o) => fst (handle cfg c t id o) end) h c.
 
+  (* handleWatchEvent as the informer's handlers call it: the argument in either form *)
+  Definition handle_d (cfg : config) (c : cache) (t : evtype) (id : N) (d : delivery) : cache * option event :=
+    handle cfg c t id (unwrap d).
+
+  Fixpoint run_d (cfg : config) (c : cache) (h : list dstep) : list (cache * option event) :=
+    match h with
+    | [] => []
+    | (t, id, d) :: r =>
+        let (c', ev) := handle_d cfg c t id d in (c', ev) :: run_d cfg c' r
+    end.
+
+  Definition final_cache_d (cfg : config) (c : cache) (h : list dstep) : cache :=
+    fold_left (fun c s => match s with (t, id, d) => fst (handle_d cfg c t id d) end) h c.
+
 End WithOracle.
+
+(* ---- the environment: what a RELIST delivers ----
+   After a broken watch that cannot be resumed the reflector lists again and calls
+   DeltaFIFO.Replace(list); processDeltas turns the queued deltas into handler calls.
+   [store] is what the shared informer's store holds (resource id -> object, the objects of
+   the deliveries so far), [listed] the new list:
+     - every listed object, in list order: `Replaced` delta -> OnUpdate(old, obj) if the
+       store has its key, OnAdd(obj) otherwise (processDeltas).  sharedIndexInformer.OnUpdate
+       marks the notification of an object whose resourceVersion is unchanged as a sync, and
+       distribute hands syncs only to listeners that are due for a resync: [quiet id] = true
+       says that the unchanged re-delivery of [id] is left out;
+     - then every key of the store that is not in the list: `Deleted` delta carrying
+       DeletedFinalStateUnknown{key, last stored object} BY VALUE -> OnDelete(tombstone). *)
+Fixpoint a_get (id : N) (l : list (N * json)) : option json :=
+  match l with
+  | [] => None
+  | (k, o) :: r => if N.eqb id k then Some o else a_get id r
+  end.
+
+Definition a_mem (id : N) (l : list (N * json)) : bool :=
+  match a_get id l with Some _ => true | None => false end.
+
+Definition unchanged_in (store : list (N * json)) (io : N * json) : bool :=
+  match a_get (fst io) store with
+  | Some o' => json_eqb o' (snd io)
+  | None => false
+  end.
+
+Definition relist_live (quiet : N -> bool) (store : list (N * json)) (io : N * json) : list dstep :=
+  if quiet (fst io) && unchanged_in store io then []
+  else [(if a_mem (fst io) store then Modified else Added, fst io, Plain (snd io))].
+
+Definition relist_gone (listed : list (N * json)) (io : N * json) : list dstep :=
+  if a_mem (fst io) listed then [] else [(Deleted, fst io, Tombstone (fst io) (snd io))].
+
+Definition relist (quiet : N -> bool) (store listed : list (N * json)) : list dstep :=
+  flat_map (relist_live quiet store) listed ++ flat_map (relist_gone listed) store.
